@@ -12,7 +12,7 @@ import (
 
 func newExec(e *Engine, sol *Solver) *Exec {
 	x := &Exec{eng: e, prog: e.l.prog, sol: sol, unwind: e.spec.Unwind, sched: e.spec.Sched, maxPreempt: e.spec.Preempt,
-		memoOn: e.spec.Memo, trace: e.trace, funcsSeen: map[*ssa.Function]bool{}, blocksSeen: e.newBlockSet(), extSeen: map[string]int{}}
+		memoOn: e.spec.Memo, trace: e.trace, funcsSeen: map[*ssa.Function]bool{}, rvalues: map[*Agg]Value{}, blocksSeen: e.newBlockSet(), extSeen: map[string]int{}}
 	if x.unwind == 0 {
 		x.unwind = 12
 	}
@@ -37,6 +37,8 @@ func (x *Exec) runOnce(dec []Dec, concrete map[string]string) (out abortSig, pr 
 	x.shared = nil
 	x.regions = map[string][]knownRegion{}
 	x.tokens = nil
+	x.syncMaps = nil // contents of sync.Map objects are per path (object ids restart with every path)
+	x.rvalues = map[*Agg]Value{}
 	x.spec = false
 	x.concrete = concrete
 	x.ctxN = 0
